@@ -24,7 +24,7 @@ RULE = ('macros: BFS over operation histories (alphabet in coverage.alphabet) wi
 ASSUMPTIONS = ['behaviour of *using* an unbound macro without finalizing is not asserted (statement leaves it open)',
                'defining a constant that is a strict suffix of an existing one is not asserted']
 WITNESSES = ['use_before_definition', 'redefinition_wins', 'redefinition_in_later_file', 'per_use_reevaluation',
-             'finalize_rejects_unbound', 'finalize_rejects_unevaluated', 'scope_like_macro_name',
+             'macro_as_dict_key', 'finalize_rejects_unbound', 'finalize_rejects_unevaluated', 'scope_like_macro_name',
              'constant_identity', 'constant_suffix_unique', 'constant_ambiguous_rejected', 'constant_duplicate_rejected',
              'constant_invalid_rejected', 'special_syntax_same_macro', 'constant_identity_after_clear']
 
@@ -48,13 +48,15 @@ def setup():
 
 OPS = ['def_m1', 'def_m2', 'def_m_none', 'def_m_empty', 'def_mg', 'def_special4', 'def_ab3', 'use_p', 'use_q_list', 'use_r_ab', 'use_p_uneval',
        'file2_redefine', 'include_def_use', 'finalize', 'def_and_use_one_text', 'use_then_def_one_text',
-       'def_gin_macro5', 'use_p_short_ref', 'use_r_uneval', 'def_m11_skip_unknown', 'def_ab_skip_list', 'def_a_prefix']
+       'def_gin_macro5', 'use_p_short_ref', 'use_r_uneval', 'def_m11_skip_unknown', 'def_ab_skip_list', 'def_a_prefix',
+       'use_r_dictkey', 'use_r_dictkey_uneval']
 TEXT = {
     'def_m1': 'm = 1', 'def_m2': 'm = 2', 'def_m_none': 'm = None', 'def_m_empty': "m = ''", 'def_mg': 'm = @c05.g()', 'def_special4': 'm/macro.value = 4',
     'def_gin_macro5': 'm/gin.macro.value = 5',
     'def_ab3': 'a/b = 3', 'use_p': 'c05.c.p = %m', 'use_q_list': "c05.c.q = [%m, 'x', %m]", 'use_r_ab': 'c05.c.r = %a/b',
     'use_p_uneval': 'c05.c.p = @m/macro', 'use_p_short_ref': 'c05.c.p = @m/macro()',
     'use_r_uneval': 'c05.c.r = @m/gin.macro', 'def_m11_skip_unknown': 'm = 11', 'def_ab_skip_list': 'a/b = 12', 'def_a_prefix': 'a = 77',
+    'use_r_dictkey': "c05.c.r = {%a/b: 'v'}", 'use_r_dictkey_uneval': "c05.c.r = {@m/macro: 'v'}",
     'def_and_use_one_text': 'm = 7\nc05.c.p = %m\nm = 8',
     'use_then_def_one_text': 'c05.c.r = %a/b\na/b = 9',
 }
@@ -102,6 +104,10 @@ class World:
       self.params['p'] = ('M', 'm')
     elif op == 'use_r_uneval':
       self.params['r'] = ('U', 'm')
+    elif op == 'use_r_dictkey':
+      self.params['r'] = ('KM', 'a/b')      # the macro is the KEY of a dict value
+    elif op == 'use_r_dictkey_uneval':
+      self.params['r'] = ('KU', 'm')
     elif op == 'def_m11_skip_unknown':
       self.macros['m'] = 11
     elif op == 'def_ab_skip_list':
@@ -125,7 +131,7 @@ class World:
     for t in self.params.values():
       for x in (t if isinstance(t, list) else [t]):
         if isinstance(x, tuple):
-          out.append(x)
+          out.append(({'KM': 'M', 'KU': 'U'}.get(x[0], x[0]), x[1]))
     return out
 
   def apply(self, op, res, hist):
@@ -212,6 +218,11 @@ class World:
             ok = ok and isinstance(g, list) and i < len(g) and g[i] == x
             w.append(x)
         want[prm] = w
+      elif t[0] == 'KM':
+        v = self.macros[t[1]]
+        ok = ok and isinstance(g, dict) and list(g.values()) == ['v'] and list(g) == [v]
+        want[prm] = {v: 'v'}
+        res.w('macro_as_dict_key')
       else:
         v = self.macros[t[1]]
         if v is G:
@@ -252,7 +263,7 @@ class World:
 
 # ----------------------------------------------------------------------------------- constants
 POOL = ['K', 'q.K', 'p.q.K', 'r.q.K', 'r.K', 'J', 'p.J']
-INVALID_NAMES = ['', '1K', 'a..K', 'a.K.', '.K', 'a/K', 'a K', 'K-1']
+INVALID_NAMES = ['', '1K', 'a..K', 'a.K.', '.K', 'a/K', 'a K', 'K-1', 'K\n', 'a.K\n']
 
 
 def suffixes(name):
